@@ -1,4 +1,6 @@
 """C18 - archiving trace history never loses or prematurely archives events."""
+import z3
+
 import repo  # noqa: F401
 import memzk
 
@@ -115,6 +117,14 @@ def subharnesses(tier):
         subs.append(('finished-batch%d-two_passes' % bs,
                      {'kind': 'finished', 'batch': bs, 'crash': False,
                       'passes': 2}))
+    # one pass of the archiver's own loop (sproc trace cleanup): the options
+    # must reach the functions they are meant for (different expiries and
+    # batch sizes for trace events and finished records)
+    for tb, fb in ((1, 1), (2, 1), (1, 2), (3, 3)):
+        for sched in (0, 2, 5):
+            subs.append(('sproc-tb%d-fb%d-sched%d' % (tb, fb, sched),
+                         {'kind': 'sproc', 'trace_batch': tb,
+                          'finished_batch': fb, 'sched': sched}))
     for n in (0, 1, 3, 4, 5):
         subs.append(('prune-%d' % n, {'kind': 'prune', 'n': n}))
     for bs in (1, 2, 3, 4, 6):
@@ -283,6 +293,112 @@ def _finished(S, spec):
                     S.z(mt) < S.z(VT.now) - EXPIRES, {'instance': inst})
 
 
+FIN_EXPIRES = 3000
+
+
+class _StopLoop(Exception):
+    pass
+
+
+def _sproc(S, spec):
+    _zk, tzk = _fresh_modules()
+    import importlib
+    import sqlite3, tempfile, zlib, os
+    from treadmill.sproc import trace as st
+    st = importlib.reload(st)
+    tzk.time = VT
+    VT.now = S.int('now', 0, 10000)
+    tree = memzk.Tree()
+    zk = memzk.Client(tree, 1)
+    for p in ('/scheduled', '/trace', '/trace.history', '/finished',
+              '/finished.history', '/server-trace', '/server-trace.history'):
+        tree.seed(p)
+    scheduled = [i for i in range(3) if spec['sched'] & (1 << i)]
+    for i in scheduled:
+        tree.seed('/scheduled/' + INSTS[i], b'{}')
+    pre_ev = {}
+    for (i, ts, rest) in EVENTS[:6]:
+        name = '%s,%s,%s' % (INSTS[i], ts, rest)
+        path = '/trace/%s/%s' % (_shard(INSTS[i]), name)
+        tree.seed(path, b'')
+        pre_ev[path] = (i, ts, name)
+    pre_fin = {}
+    for k, inst in enumerate(INSTS):
+        mt = S.int('finished_mtime_%d' % k, 0, 10000)
+        n = tree.seed('/finished/' + inst, b'{"state": "finished"}', ctime=mt)
+        n.mtime = SymTime(mt)
+        pre_fin['/finished/' + inst] = (inst, mt)
+
+    class _Time:
+        time = VT.time
+
+        @staticmethod
+        def sleep(_n):
+            raise _StopLoop()
+    st.time = _Time
+
+    class _Ctx:
+        class GLOBAL:
+            class zk_:
+                conn = zk
+    _Ctx.GLOBAL.zk = _Ctx.GLOBAL.zk_
+    st.context = _Ctx
+    cmd = st.init().commands['cleanup']
+    try:
+        cmd.callback(interval=60, trace_evictions_max_count=10,
+                     trace_service_events_max_count=10,
+                     trace_batch_size=spec['trace_batch'],
+                     trace_expire_after=EXPIRES, trace_history_max_count=50,
+                     finished_batch_size=spec['finished_batch'],
+                     finished_expire_after=FIN_EXPIRES,
+                     finished_history_max_count=50, no_lock=True)
+    except _StopLoop:
+        pass
+    S.reach('archived')
+    S.reach('archiver_loop_ran')
+    archived = {}
+    for sn in tree.children('/trace.history'):
+        for inst in INSTS:
+            for ev in _zk.download_batch(zk, '/trace.history/' + sn, 'trace',
+                                         inst):
+                archived.setdefault(ev, []).append(sn)
+    for path, (i, ts, name) in pre_ev.items():
+        live = path in tree.nodes
+        S.check('C18:event_neither_live_nor_in_a_snapshot',
+                live or name in archived, {'event': name})
+        if not live:
+            S.reach('event_archived')
+            S.check('C18:event_of_scheduled_instance_archived',
+                    i not in scheduled, {'event': name})
+            S.check('C18:event_younger_than_expiry_archived',
+                    S.z(ts) < S.z(VT.now) - EXPIRES, {'event': name})
+    fin_arch = set()
+    for sn in tree.children('/finished.history'):
+        data = tree.nodes['/finished.history/' + sn].data
+        with tempfile.NamedTemporaryFile(delete=False, mode='wb') as f:
+            f.write(zlib.decompress(data))
+        conn = sqlite3.connect(f.name)
+        for row in conn.execute('SELECT name FROM finished'):
+            fin_arch.add(row[0])
+        conn.close()
+        os.unlink(f.name)
+    for path, (inst, mt) in pre_fin.items():
+        live = path in tree.nodes
+        S.check('C18:finished_record_neither_live_nor_in_a_snapshot',
+                live or inst in fin_arch, {'instance': inst})
+        if not live:
+            S.reach('finished_record_archived')
+            S.check('C18:finished_record_younger_than_expiry_archived',
+                    S.z(mt) < S.z(VT.now) - FIN_EXPIRES, {'instance': inst})
+        else:
+            # nothing older than the expiry stays behind once a full batch of
+            # expired records exists (batch size 1: every expired one goes)
+            if spec['finished_batch'] == 1:
+                S.check('C18:expired_finished_record_not_archived',
+                        z3.Not(S.z(mt) < S.z(VT.now) - FIN_EXPIRES),
+                        {'instance': inst})
+
+
 SRV_EVENTS = [('host1', 100, 'm,server_state,up'),
               ('host1', 300, 'm,server_state,down'),
               ('host2', 200, 'm,server_blackout,'),
@@ -372,7 +488,7 @@ def harness(S, spec):
     import logging
     logging.disable(logging.CRITICAL)
     {'trace': _trace, 'finished': _finished, 'prune': _prune,
-     'server': _server}[spec['kind']](
+     'server': _server, 'sproc': _sproc}[spec['kind']](
         S, spec)
 
 
@@ -380,6 +496,7 @@ TWINS = ['trace-batch2-sched0-run', 'prune-4']
 
 META = {
     'functions_encoded': [
+        'sproc.trace cleanup (the archiver loop and its option wiring)',
         'trace.app.zk.cleanup_trace', 'trace.app.zk.cleanup_finished',
         'trace.app.zk.cleanup_trace_history / cleanup_finished_history',
         'trace._zk.upload_batch', 'trace._zk.download_batch',
